@@ -134,10 +134,26 @@ func firstFields(s string, n int) string {
 
 // Supervise runs the worker with the given arguments under a deadline.
 func Supervise(args []string, dir string, deadline time.Duration) SuperResult {
+	return SuperviseStdio(args, dir, deadline, "")
+}
+
+// SuperviseStdio is Supervise with a choice of what the worker's own standard output and error are:
+// "" captured, "devfull" a device on which every write fails (ENOSPC), "closed" nothing at all.
+// The worker prints nothing itself; a library call must not depend on these streams.
+func SuperviseStdio(args []string, dir string, deadline time.Duration, stdio string) SuperResult {
 	cmd := exec.Command(filepath.Join(BinDir(), "worker"), args...)
 	cmd.Dir = dir
 	var buf bytes.Buffer
 	cmd.Stdout, cmd.Stderr = &buf, &buf
+	switch stdio {
+	case "devfull":
+		if f, err := os.OpenFile("/dev/full", os.O_WRONLY, 0); err == nil {
+			defer f.Close()
+			cmd.Stdout, cmd.Stderr = f, f
+		}
+	case "closed":
+		cmd.Stdout, cmd.Stderr = nil, nil
+	}
 	cmd.SysProcAttr = &syscall.SysProcAttr{Setpgid: true}
 	start := time.Now()
 	res := SuperResult{}
